@@ -20,6 +20,24 @@ import (
 	"github.com/modernizing/coca/pkg/domain/core_domain"
 )
 
+// reusedModel is the process's long-lived model variable: the CLI commands decode every deps.json
+// into one package-level slice, so encoding/json reuses its backing array from run to run.
+var reusedModel []core_domain.CodeDataStruct
+
+func loadModelReuse(path string, reuse bool) ([]core_domain.CodeDataStruct, error) {
+	if !reuse {
+		return loadModel(path)
+	}
+	raw, err := os.ReadFile(path)
+	if err != nil {
+		return nil, err
+	}
+	if err := json.Unmarshal(raw, &reusedModel); err != nil {
+		return nil, fmt.Errorf("%s: %v", path, err)
+	}
+	return reusedModel, nil
+}
+
 func loadModel(path string) ([]core_domain.CodeDataStruct, error) {
 	if path == "" {
 		return nil, nil
@@ -134,11 +152,12 @@ func dispatch(op Op) (interface{}, error) {
 			Root   string `json:"root"`
 			Model  string `json:"model"`
 			Lookup bool   `json:"lookup"`
+			Reuse  bool   `json:"reuse"`
 		}
 		if err := json.Unmarshal(op.Args, &a); err != nil {
 			return nil, err
 		}
-		m, err := loadModel(a.Model)
+		m, err := loadModelReuse(a.Model, a.Reuse)
 		if err != nil {
 			return nil, err
 		}
@@ -149,11 +168,12 @@ func dispatch(op Op) (interface{}, error) {
 			Apis  []api_domain.RestAPI `json:"apis"`
 			Model string               `json:"model"`
 			DI    map[string]string    `json:"di"`
+			Reuse bool                 `json:"reuse"`
 		}
 		if err := json.Unmarshal(op.Args, &a); err != nil {
 			return nil, err
 		}
-		m, err := loadModel(a.Model)
+		m, err := loadModelReuse(a.Model, a.Reuse)
 		if err != nil {
 			return nil, err
 		}
@@ -164,11 +184,12 @@ func dispatch(op Op) (interface{}, error) {
 		var a struct {
 			Target string `json:"target"`
 			Model  string `json:"model"`
+			Reuse  bool   `json:"reuse"`
 		}
 		if err := json.Unmarshal(op.Args, &a); err != nil {
 			return nil, err
 		}
-		m, err := loadModel(a.Model)
+		m, err := loadModelReuse(a.Model, a.Reuse)
 		if err != nil {
 			return nil, err
 		}
